@@ -20,6 +20,9 @@ rule("C10.b", "on every path from the entry of a set-up / report method to a rea
 rule("C16.h", "a wrapper (scaled / structured / linked asset) reads the shared grid cache only after re-establishing it for itself, "
               "i.e. after the wrapped set-up has overwritten it", floor=2)
 rule("C10.c", "discount factors are created before the sub-grid that copies them, and every sub-grid branch copies them", floor=3)
+rule("C10.g", "the primitives that establish the shared grid cache for an asset (Timegrid.set_wacc, Timegrid.set_restricted_grid) "
+              "write it on every path: no shortcut leaves the previous asset's discount factors / sub-grid in place", floor=2,
+     props=["C10", "C09", "C08"])
 
 ENTRY_METHODS = ("setup_optim_problem", "dcf", "fill_level")
 ESTABLISH_PRIMITIVE = "set_restricted_grid"     # Timegrid method that creates .restricted
@@ -144,7 +147,34 @@ class CacheAnalysis:
 WRAPPERS = ("ScaledAsset", "StructuredAsset", "LinkedAsset")
 
 
-@analysis("gridcache", ["C10.b", "C10.c", "C16.h"])
+class _MustAssign(Domain):
+    """set of self.<attr> assigned on every path so far"""
+
+    def initial(self, fn):
+        return frozenset()
+
+    def join(self, a, b):
+        return a & b
+
+    def stmt(self, s, node):
+        if isinstance(node, (ast.Assign, ast.AnnAssign, ast.AugAssign)):
+            for t in au.stmt_targets(node):
+                pth = au.path(t)
+                if pth and pth.startswith("self.") and pth.count(".") == 1:
+                    s = s | frozenset([pth[5:]])
+        return s
+
+
+def must_assign(fn) -> frozenset:
+    w = Walker(_MustAssign())
+    w.run_function(fn)
+    out = None
+    for node, st in w.returns:
+        out = st if out is None else (out & st)
+    return out if out is not None else frozenset()
+
+
+@analysis("gridcache", ["C10.b", "C10.c", "C16.h", "C10.g"])
 def run(ctx):
     p = ctx.p
     an = CacheAnalysis(ctx)
@@ -203,6 +233,20 @@ def run(ctx):
         ctx.ob("C10.c", st, "set_wacc precedes %s" % au.short(c, 80), ok,
                "the sub-grid copies the discount factors of the grid: creating it before set_wacc leaves the asset with "
                "the factors of whichever asset used the grid before (or none)", node=c)
+    # ---------------------------------------------------------------- C10.g the establishing primitives write on every path
+    tgc = p.cls("Timegrid")
+    for mname, attr in (("set_wacc", "discount_factors"), (ESTABLISH_PRIMITIVE, "restricted")):
+        m = tgc.methods.get(mname)
+        ctx.require(m is not None, "Timegrid.%s vanished" % mname)
+        always = must_assign(m)
+        rets = [r for r in au.walk_stmts(m.body) if isinstance(r, ast.Return)]
+        ctx.ob("C10.g", m, "self.%s is written on every path" % attr, attr in always,
+               "Timegrid.%s is what makes the shared grid belong to the asset that is being set up, but it has a path on which "
+               "self.%s is left as it was (e.g. a shortcut return): an asset taking that path inherits the %s of whichever asset "
+               "used the grid before it, so the result depends on the order of the assets in the portfolio" % (
+                   mname, attr, "discount factors" if attr == "discount_factors" else "window"),
+               node=(rets[0] if rets else m.node))
+
     # Timegrid.__init__: every arm that derives self.dt from the reference grid also derives discount_factors
     tg = p.cls("Timegrid").methods.get("__init__")
     ctx.require(tg is not None, "Timegrid.__init__ vanished")
